@@ -1200,6 +1200,16 @@ class Interp:
                 for k in reversed(range(len(vals) - 1)):
                     out = z3.If(zi(o.idx) == k, z3.IntVal(vals[k]), out)
                 return simp(out)
+            if all(isinstance(v, str) for v in vals) and len({len(v) for v in vals}) == 1 and attr != "name":
+                # same-length text attribute: per-character If-chains instead of a path fork
+                n = len(vals[0])
+                ts = []
+                for j in range(n):
+                    out = z3.IntVal(ord(vals[-1][j]))
+                    for k in reversed(range(len(vals) - 1)):
+                        out = z3.If(zi(o.idx) == k, z3.IntVal(ord(vals[k][j])), out)
+                    ts.append(simp(out))
+                return Seq('str', [Elems(ts)])
             k = ctx.choose([zi(o.idx) == i for i in range(len(o.members))])
             return self.lift_const(vals[k])
         if isinstance(o, ClassInfo):
@@ -1488,6 +1498,9 @@ class Interp:
         return None
 
     def instantiate(self, cls, args, kwargs, ctx):
+        c = self.contracts.get(cls.qualname)
+        if c is not None and not self.inline_all and cls.qualname not in self.no_contract_for:
+            return c.apply(self, cls, args, kwargs, ctx)
         o = Obj(cls)
         if cls.is_dataclass:
             fields = cls.dataclass_fields()
